@@ -267,6 +267,26 @@ let handle_mset (r : reader) : unit =
     dump ()
   done
 
+(* ---------- character-level ASCII codec (Model/AsciiCodec.v): strings travel as hex ---------- *)
+let bytes_of_hex (h : string) : n list =
+  if h = "-" then [] else
+  List.init (String.length h / 2) (fun i -> n_of_int (int_of_string ("0x" ^ String.sub h (2 * i) 2)))
+let out_hex (l : n list) =
+  Buffer.add_char buf ' ';
+  if l = [] then Buffer.add_char buf '-' else
+  List.iter (fun b -> Buffer.add_string buf (Printf.sprintf "%02x" (int_of_n b))) l
+let aerr_name = function
+  | AEParse -> "Parse" | AERemaining -> "Remaining" | AEFirstToken -> "FirstToken" | AEDepthType -> "DepthType"
+  | AEDepth -> "Depth" | AEIndex -> "Index" | AENotValid -> "NotValid" | AEFuel -> "FUEL-EXHAUSTED"
+let out_elems (l : aelem list) =
+  out_int (List.length l);
+  List.iter (function
+    | ECell (d, i) -> out_s " c"; out_n d; out_n i
+    | ERange (d, a, b) -> out_s " r"; out_n d; out_n a; out_n b) l
+let next_fold r = match next r with "-" -> None | x -> Some (n_of_string x)
+let elems_of_moc q w d l =
+  match moc_cells_o q w d l with Some c -> elems_of_cells c | None -> raise (Parse_error "cells-fuel")
+
 (* ---------- dispatch ---------- *)
 let handle (r : reader) : unit =
   match next r with
@@ -441,6 +461,46 @@ let handle (r : reader) : unit =
       let bytes = encode_rows (nat_of_int (w / 8)) l in
       out_s "OK ";
       List.iter (fun b -> Buffer.add_string buf (Printf.sprintf "%02x" (int_of_n b))) bytes
+  | "ASCW" ->
+      (* ASCW q w d fold use_len ranges -> the characters to_ascii_ivoa writes for the cells().cellranges() view *)
+      let q = next_qty r in
+      let w = next_n r in
+      let d = next_n r in
+      let fold = next_fold r in
+      let ul = next_int r <> 0 in
+      let l = next_ranges r in
+      let es = elems_of_moc q w d l in
+      out_s "OK"; out_hex (to_ascii d fold ul es); out_elems es
+  | "ASCR" ->
+      (* ASCR q w hex -> from_ascii_ivoa: depth, elements, and their ranges() view; or the error kind *)
+      let q = next_qty r in
+      let w = next_n r in
+      let s = bytes_of_hex (next r) in
+      (match from_ascii isort_e q w s with
+       | AOk (d, es) -> out_s "OK"; out_n d; out_elems es; out_ranges (ranges_of_elems q w es)
+       | AErr e -> out_s ("ERR " ^ aerr_name e))
+  | "ASC2W" ->
+      (* ASC2W q1 w1 q2 w2 p1 p2 d1 d2 fold use_len n (ranges1 ranges2)* *)
+      let q1 = next_qty r in let w1 = next_n r in
+      let q2 = next_qty r in let w2 = next_n r in
+      let p1 = next_n r in let p2 = next_n r in
+      let d1 = next_n r in let d2 = next_n r in
+      let fold = next_fold r in
+      let ul = next_int r <> 0 in
+      let l = next_list r (fun r -> let a = next_ranges r in let b = next_ranges r in (elems_of_moc q1 w1 d1 a, elems_of_moc q2 w2 d2 b)) in
+      out_s "OK"; out_hex (st_to_ascii p1 p2 d1 d2 fold ul l)
+  | "ASC2R" ->
+      (* ASC2R q1 w1 q2 w2 p1 p2 hex -> moc2d_from_ascii_ivoa *)
+      let q1 = next_qty r in let w1 = next_n r in
+      let q2 = next_qty r in let w2 = next_n r in
+      let p1 = next_n r in let p2 = next_n r in
+      let s = bytes_of_hex (next r) in
+      (match st_from_ascii isort_e q1 w1 q2 w2 p2 p1 s with
+       | StOk (d1, d2, l) ->
+           out_s "OK"; out_n d1; out_n d2; out_int (List.length l);
+           List.iter (fun (a, b) -> out_elems a; out_elems b) l
+       | StErr SElemNotFound -> out_s "ERR ElemNotFound"
+       | StErr (SAscii e) -> out_s ("ERR " ^ aerr_name e))
   | "HIST" -> handle_hist r
   | "MSET" -> handle_mset r
   | "TEXTV" ->
